@@ -68,8 +68,9 @@ func (a *AuthenticateStart) Handle(response tq.Response, request tq.Request) {
 		return
 	}
 	// we don't know what this packet is, so we log everything in it. this could log passwords but w/o knowing what this
-	// packet was, we can't effectively omit fields, so we guess.  user-msg may contain a password.
-	a.Record(request.Context, request.Fields(tq.ContextConnRemoteAddr, tq.ContextConnLocalAddr), "user-msg")
+	// packet was, we can't effectively omit fields, so we guess.  user-msg and data may contain a password
+	// (a PAP login carries it in data).
+	a.Record(request.Context, request.Fields(tq.ContextConnRemoteAddr, tq.ContextConnLocalAddr), "user-msg", "data")
 	authenStartHandleUnexpectedPacket.Inc()
 	authenStartHandleError.Inc()
 	response.ReplyWithContext(
